@@ -386,6 +386,15 @@ func (w *Worker) callSSA(caller *frame, callpos token.Pos, fn *ssa.Function, arg
 		return nil
 	}
 	if rep, ok := w.ex.Replace[name]; ok && (caller == nil || !w.inReplacement(caller, rep)) {
+		// a stand-in for a method must not hide a nil receiver: the real method of a
+		// library type dereferences it
+		if fn.Signature.Recv() != nil && len(args) > 0 {
+			if rp, isPtr := args[0].(*Value); isPtr && rp == nil {
+				if _, ptrRecv := fn.Signature.Recv().Type().(*types.Pointer); ptrRecv {
+					fr.rtPanic("invalid memory address or nil pointer dereference (method " + name + " called on a nil receiver)")
+				}
+			}
+		}
 		w.ex.noteStub(name + " => " + rep.String())
 		return w.callSSA(caller, callpos, rep, args, nil)
 	}
